@@ -6,15 +6,15 @@
  "mode": "harness",
  "generate": [{"tool": "gen_switch_arm", "args": ["qbe.c", "funcexpr", "e->kind", "EXPRASSIGN"], "out": "qbe_arm_EXPRASSIGN.c"}, {"tool": "gen_switch_arm", "args": ["qbe.c", "funcexpr", "e->kind", "EXPRCOMMA"], "out": "qbe_arm_EXPRCOMMA.c"}, {"tool": "gen_switch_arm", "args": ["qbe.c", "funcexpr", "e->kind", "EXPRCAST"], "out": "qbe_arm_EXPRCAST.c"}, {"tool": "gen_switch_arm", "args": ["qbe.c", "funcexpr", "e->kind", "EXPRUNARY"], "out": "qbe_arm_EXPRUNARY.c"}, {"tool": "gen_switch_arm", "args": ["qbe.c", "funcexpr", "e->kind", "EXPRBUILTIN"], "out": "qbe_arm_EXPRBUILTIN.c"}],
  "replace_calls": {"funcinst": "rec_funcinst", "funclval": "rec_funclval", "funcload": "rec_funcload", "funcstore": "rec_funcstore", "convert": "rec_convert"},
- "variants": { "comma": ["-DV_ARM=1"], "cast": ["-DV_ARM=2"], "addr": ["-DV_ARM=3"], "deref": ["-DV_ARM=4"], "builtin": ["-DV_ARM=5"]},
+ "variants": { "assign": ["-DV_ARM=0", "-DV_LTEMP=0"], "assign_temp": ["-DV_ARM=0", "-DV_LTEMP=1"], "comma": ["-DV_ARM=1"], "cast": ["-DV_ARM=2"], "addr": ["-DV_ARM=3"], "deref": ["-DV_ARM=4"], "builtin": ["-DV_ARM=5"]},
  "canary_variant": "comma",
- "cbmc_flags": ["--no-simplify"], "retry_no_simplify": false,
+ "cbmc_flags": ["--no-simplify", "--slice-formula"], "retry_no_simplify": false,
  "kind": "proof", "unwind": 4,
  "link_repo": ["type.c"],
  "timeout": 300, "replay": false,
  "assumes": ["MECHANICAL EXTRACTION as in QBE.binop (bin/gen_switch_arm writes one copy of qbe.c per arm -- EXPRASSIGN, EXPRCOMMA, EXPRCAST, EXPRUNARY, EXPRBUILTIN -- each keeping only that arm of funcexpr's switch)",
              "inductive step: sub-expressions go to hyp_funcexpr, which logs the ORDER of evaluation and returns one temporary per sub-expression; funclval/funcload/funcstore/convert/funcinst are recorders (their own units: QBE.funcstore.const, QBE.bitfield.*, QBE.convert.*)",
-             "comma expressions of 3 operands", "the EXPRASSIGN arm is written down in the unit (V_ARM == 0) but NOT run: CBMC runs out of memory (8 GB) on it in --no-simplify mode"]
+             "comma expressions of 3 operands", "--slice-formula (cone-of-influence slicing per obligation, sound) is needed for the EXPRASSIGN arm: without it the --no-simplify encoding has 26 M variables and needs 11 GB"]
 }
 */
 #include "funcexpr_redirect.h"
@@ -45,7 +45,7 @@ static void log_(int k, void *a, void *b, void *c, int x) { if (nev < NEV) { ev[
 
 static struct expr sub[3], e_l;
 static struct value v_sub[3], v_addr, v_load, v_store, v_conv, v_inst;
-static struct type t_a, t_b;
+static struct type t_a, t_b, t_l;
 
 struct value *hyp_funcexpr(struct func *f, struct expr *e) { int i = e == &sub[0] ? 0 : e == &sub[1] ? 1 : 2; log_(EV_EVAL, e, 0, 0, 0); return &v_sub[i]; }
 struct lvalue rec_funclval(struct func *f, struct expr *e) { struct lvalue l = {&v_addr}; log_(EV_LVAL, e, 0, 0, 0); return l; }
@@ -77,14 +77,14 @@ harness(void)
 #if V_ARM == 0
 	in_ltemp = V_LTEMP;
 	e.kind = EXPRASSIGN; e.type = &t_a; e.u.assign.r = &sub[0]; e.u.assign.l = &e_l;
-	e_l.kind = in_ltemp ? EXPRTEMP : EXPRIDENT; e_l.type = &t_a; e_l.qual = in_qual; e_l.u.temp = 0;
+	t_l = t_a; e_l.kind = in_ltemp ? EXPRTEMP : EXPRIDENT; e_l.type = &t_l;   /* the left operand's own type object */ e_l.qual = in_qual; e_l.u.temp = 0;
 	ret = funcexpr(&fn, &e);
 	__CPROVER_assert(EVIS(0, EV_EVAL, &sub[0], 0, 0), "the right operand is evaluated (once, first)");
 	if (in_ltemp) {
 		__CPROVER_assert(nev == 1 && e_l.u.temp == &v_sub[0] && ret == &v_sub[0], "assignment to a compiler temporary binds it to the value; nothing is stored");
 	} else {
 		__CPROVER_assert(nev == 3 && EVIS(1, EV_LVAL, &e_l, 0, 0), "then the left operand is evaluated as an lvalue");
-		__CPROVER_assert(EVIS(2, EV_STORE, &t_a, &v_addr, &v_sub[0]) && ev[2].x == in_qual, "the value is stored into that object with the object's type and QUALIFIERS (const/volatile reach the store check)");
+		__CPROVER_assert(EVIS(2, EV_STORE, &t_l, &v_addr, &v_sub[0]) && ev[2].x == in_qual, "the value is stored into that object with the object's (left operand's) type and QUALIFIERS (const/volatile reach the store check)");
 		__CPROVER_assert(ret == &v_store, "the value of the assignment is the value the store yields (the stored, converted value)");
 	}
 #elif V_ARM == 1
